@@ -1,10 +1,13 @@
 """Static description of the registered checks (source of MANIFEST.json)."""
 
-HOOK_COMMITS = []
+HOOK_COMMITS = ["a6e3c163", "a2efab50"]
 
 ENGINES = [
     {"name": "progfuzz", "path": "vlib/gen, vlib/runner.py, vlib/props", "kind_free_text":
         "Hypothesis-generated program models -> gcc/clang -> libabigail tools; oracle computed from the model; 16 seeded workers; shrinking; 3x replay",
+     "serves_properties": []},
+    {"name": "fuzz", "path": "cxx/fuzz_*.cc, vlib/fuzzprop.py", "kind_free_text":
+        "libFuzzer targets (fork mode, 14+2 jobs) with semantic oracle and assertion capture inside the target; artifacts are re-run alone and keyed by assertion site / sanitizer error",
      "serves_properties": []},
     {"name": "faultinj", "path": "vlib/props/C36.py", "kind_free_text":
         "strace-based syscall fault injection on the output descriptor, enumerated over all output calls of a run",
@@ -21,9 +24,12 @@ HARNESSES = [
     (("c42_interned", "plain", ["c42_interned.cc"]), {"extra_ld": ["-lrapidcheck"]}),
     (("c27_regex", "plain", ["c27_regex.cc"]), {"extra_ld": ["-lrapidcheck"]}),
     (("c21_eqhash", "plain", ["c21_eqhash.cc"]), {"extra_ld": []}),
+    (("fuzz_abixml", "asan", ["fuzz_abixml.cc"]), {"extra_flags": ["-fsanitize=fuzzer-no-link", "-DVERIF_ASSERT_STRONG"], "extra_ld": ["-fsanitize=fuzzer"]}),
+    (("fuzz_suppr", "asan", ["fuzz_suppr.cc"]), {"extra_flags": ["-fsanitize=fuzzer-no-link", "-DVERIF_ASSERT_STRONG"], "extra_ld": ["-fsanitize=fuzzer"]}),
 ]
 
 _T1 = "trusted base: system gcc/clang/ld/readelf, CPython + Hypothesis, the model/renderer in vlib/gen; tools are rebuilt from /repo's working tree (g++ -O1, asserts live)"
+_T3 = "trusted base: clang 14 libFuzzer + ASan/UBSan runtimes; libxml2 / elfutils / glibc regex are not instrumented; target sources in cxx/fuzz_*.cc"
 _T2 = "trusted base: g++, rapidcheck, the reference implementation inside the harness; harness linked against libabigail.a rebuilt from /repo's working tree"
 
 REG = {
@@ -75,6 +81,10 @@ REG = {
                 text="Generated C pairs whose changed/added/removed interfaces have private causes; one generated section names one of them (name, name_regexp, symbol_name, symbol_name_regexp, symbol_version) with random change_kind; exactly that entry must vanish and exactly one summary column must move by one, or nothing at all when change_kind does not cover it; exploration only.", note=_T1),
     "C24": dict(engine="progfuzz", technique="property-based testing (control + treatment: a base type suppression must hide a generated struct change, the same section plus one violated constraint must not; layout model re-checked by _Static_assert)",
                 text="Generated struct changes (insert at random position, remove, shrink, retype) x access path x one violated constraint (type_kind, source_location_not_in, accessed_through, insertion ranges under every reading the manual allows, invalid regexp); only cases whose control passes count; one recorded defect (accessed_through = direct) is a known finding; exploration only.", note=_T1),
+    "C25": dict(engine="fuzz", technique="coverage-guided fuzzing (libFuzzer in-process, ASan+UBSan, grammar-aware custom mutator) of the suppression / whitelist readers with the suppressions applied late and early to pre-loaded corpora",
+                text="Bytes -> read_suppressions and the KMI whitelist reader -> diff+report of three corpus pairs and a re-read of an ELF with the suppressions; sanitizer reports, aborts, assertions and reproducible hangs are violations; four crashes found this way were repaired; exploration only.", note=_T3),
+    "C33": dict(engine="fuzz", technique="coverage-guided fuzzing (libFuzzer in-process, ASan+UBSan, structure-aware XML mutator, assertion capture) of the ABIXML reader + writer + self diff",
+                text="Bytes -> xml_reader::read_corpus_from_input -> write_corpus + self compute_diff; the reader validates its input with ABG_ASSERT / abort() at many places: each (file, function) site found by saturation campaigns is a known finding that the target survives, any other site, any sanitizer report or hang is a violation; exploration only.", note=_T3),
     "C26": dict(engine="progfuzz", technique="property-based testing (generated public/private header splits x one mutation; model-derived expected verdict under --headers-dir / --header-file / --drop-private-types, with a no-option control)",
                 text="Generated libraries whose types are split between a public and a private header; public-type mutations must stay reported, private-type mutations must be filtered, --drop-private-types must not change the public verdict; one recorded defect (category propagation through a private type) is a known finding; exploration only.", note=_T1),
     "C29": dict(engine="progfuzz", technique="property-based testing (generated library + really linked application using a random subset of interfaces + mutations inside / outside that subset; model-derived expected verdict, weak mode included)",
